@@ -451,6 +451,7 @@ type FuncContract struct {
 	Applies    []Expr // lemma applications assumed at entry (instantiated at explicit arguments)
 	// clauses about the state right after each Lock() of the function
 	StoreAsserts    map[string][]Clause // field name -> assertions checked right after every store to that field
+	Hints           []Expr              // integer terms offered as instantiation offsets for quantified hypotheses
 	UnlockAsserts   []Clause            // proved at every Unlock() of the function (atlock() = state at the matching Lock())
 	AfterLockAssume []Clause            // trusted assumptions (listed)
 	AfterLockApply  []Expr              // lemma applications
@@ -494,7 +495,7 @@ func (db *ContractDB) allowPanic(fn string) bool {
 }
 
 var clauseKeywords = map[string]bool{
-	"ghostsum": true, "assert_at_unlock": true, "assert_after_store": true, "assume_after_lock": true, "apply_after_lock": true, "opaque": true, "apply": true, "reveal": true, "guard": true, "lock": true, "lockorder": true, "pure": true, "lemma": true, "func": true, "props": true, "safety": true,
+	"hint": true, "ghostsum": true, "assert_at_unlock": true, "assert_after_store": true, "assume_after_lock": true, "apply_after_lock": true, "opaque": true, "apply": true, "reveal": true, "guard": true, "lock": true, "lockorder": true, "pure": true, "lemma": true, "func": true, "props": true, "safety": true,
 	"requires": true, "ensures": true, "let": true, "assigns": true, "loop": true, "invariant": true,
 	"decreases": true, "allow_panic": true, "modular": true, "init_context": true, "entry": true, "option": true, "uses": true, "end": true,
 }
@@ -743,12 +744,31 @@ func (db *ContractDB) addClauses(pkg string, clauses []string, path string) erro
 				return fmt.Errorf("clause %q outside a func block", cl)
 			}
 			switch kw {
+			case "hint":
+				for _, part := range splitTop(rest, ',') {
+					e, err := mustParse(strings.TrimSpace(part))
+					if err != nil {
+						return err
+					}
+					cur.Hints = append(cur.Hints, e)
+				}
 			case "assert_at_unlock":
+				// optional site selector:  assert_at_unlock[Cxx] #4 expr  (the 4th Unlock call in source order)
+				site := 0
+				if strings.HasPrefix(rest, "#") {
+					f := strings.SplitN(rest, " ", 2)
+					fmt.Sscanf(f[0], "#%d", &site)
+					rest = strings.TrimSpace(f[1])
+				}
 				e, err := mustParse(rest)
 				if err != nil {
 					return err
 				}
-				cur.UnlockAsserts = append(cur.UnlockAsserts, Clause{Expr: e, Text: rest, Props: props})
+				cl := Clause{Expr: e, Text: rest, Props: props}
+				if site > 0 {
+					cl.Props = append(append([]string{}, props...), fmt.Sprintf("site=%d", site))
+				}
+				cur.UnlockAsserts = append(cur.UnlockAsserts, cl)
 			case "assert_after_store":
 				// assert_after_store[Cxx] field expr
 				f := strings.SplitN(rest, " ", 2)
